@@ -20,7 +20,11 @@ impl<T> MpscSender<T> {
     pub uninterp spec fn fresh(&self) -> bool;
     #[verifier::external_body] pub fn clone(&self) -> (r: Self) ensures r.q() == self.q(), r.fresh() { unimplemented!() }
     #[verifier::external_body] pub fn len(&self) -> (r: usize) { unimplemented!() }
-    #[verifier::external_body] pub fn is_closed(&self) -> (r: bool) { unimplemented!() }
+    // Sender::is_closed: true only if the receiving half is gone (and a closed queue stays closed); looking does nothing else
+    #[verifier::external_body]
+    pub fn is_closed(&self, Tracked(w): Tracked<&mut World>) -> (r: bool)
+        ensures submit_try_post(self.q(), 0, true, old(w), final(w), false), r ==> final(w).closed.contains(self.q())   // (the frame of an attempt that enqueued nothing)
+    { unimplemented!() }
     // Sender::close_channel: closes the queue from the SENDING side for every sender (what is queued is still delivered). hannibal never
     // does that: a mailbox is closed by its actor going away, not by someone who submits to it. The call itself is the finding.
     #[verifier::external_body]
@@ -44,10 +48,11 @@ impl<T> MpscSender<T> {
     pub fn unbounded_send(&self, msg: T, Tracked(w): Tracked<&mut World>) -> (r: Result<(), TrySendError<T>>)
         ensures submit_post(self.q(), pid_of(&msg), true, old(w), final(w), r is Ok)
     { unimplemented!() }
-    // SinkExt::feed: enqueue as soon as the sink accepts it, WITHOUT the flush that waits for the receiver: not a waiting submit
+    // SinkExt::feed: enqueue as soon as the sink accepts it, WITHOUT the flush that waits for the receiver: on a bounded queue not a
+    // waiting submit; on an unbounded one flushing is a no-op and `feed` is what `send` is
     #[verifier::external_body]
     pub fn feed(&mut self, msg: T, Tracked(w): Tracked<&mut World>) -> (r: Result<(), SendError>)
-        ensures final(self).q() == old(self).q(), submit_post(old(self).q(), pid_of(&msg), true, old(w), final(w), r is Ok)
+        ensures final(self).q() == old(self).q(), submit_post(old(self).q(), pid_of(&msg), queue_cap(old(self).q()) is Some, old(w), final(w), r is Ok)
     { unimplemented!() }
     // SinkExt::send: the waiting operation (enqueue, then flush: on a bounded queue wait until the receiver catches up or goes away)
     #[verifier::external_body]
